@@ -10,7 +10,7 @@ BACKENDS = [("c", "c/mod.rs"), ("cpp", "cpp/mod.rs"), ("js", "js/mod.rs"), ("dar
 
 
 def fn_body(txt, name):
-    m = re.search(r"fn\s+" + name + r"\s*\([^)]*\)\s*(->\s*[^{;]+)?\{", txt)
+    m = re.search(r"fn\s+" + name + r"\s*(?:<[^>(]*>)?\s*\([^)]*\)\s*(->\s*[^{;]+)?\{", txt)
     if not m:
         raise MachineryError(f"tablegen: fn {name} not found")
     i, depth = m.end(), 1
@@ -148,6 +148,52 @@ def doc_tables():
     return variants, need, prefix, anchor
 
 
+def str_array(txt, start_pat, what):
+    """the string literals of the array literal that follows start_pat (`[ "a", "b", .. ]`); comments are skipped.
+    Anything but string literals, commas and comments inside the brackets is a translator failure."""
+    m = re.search(start_pat, txt)
+    if not m:
+        raise MachineryError(f"tablegen: {what} not found")
+    i = txt.index("[", m.end() - 1) if txt[m.end() - 1] != "[" else m.end() - 1
+    j = txt.index("]", i)
+    body = re.sub(r"//[^\n]*", "", txt[i + 1:j])
+    items = re.findall(r'"([^"\\]*)"', body)
+    if re.sub(r'"[^"\\]*"', "", body).replace(",", "").strip():
+        raise MachineryError(f"tablegen: {what} is no longer a plain list of string literals: {body[:200]!r}")
+    if not items:
+        raise MachineryError(f"tablegen: {what} is empty")
+    return items
+
+
+def keyword_tables():
+    """the identifier-escaping tables of the C / C++ / JS / nanobind formatters, and the control skeleton around them"""
+    c = open(os.path.join(REPO, "tool/src/c/formatter.rs")).read()
+    body = fn_body(c, "fmt_identifier")
+    ckw = str_array(body, r"static C_KEYWORDS[^=]*=\s*LazyLock::new\(\|\| \[", "C_KEYWORDS")
+    cpp_extra = str_array(body, r"v\.extend\(\s*\[", "the CPP_KEYWORDS extension")
+    skel = re.sub(r"\s+", " ", body)
+    for need in ("let mut v = C_KEYWORDS.clone();", "if self.is_for_cpp { &CPP_KEYWORDS } else { &C_KEYWORDS }",
+                 'if lang_keywords.contains(name.as_ref()) { format!("{name}_").into() } else { name }'):
+        if need not in skel:
+            raise MachineryError(f"tablegen: c/formatter.rs fmt_identifier no longer contains `{need}` (Headers/Escape.v transcribes it)")
+    cppf = open(os.path.join(REPO, "tool/src/cpp/formatter.rs")).read()
+    if "self.c.fmt_identifier(name)" not in fn_body(cppf, "fmt_identifier"):
+        raise MachineryError("tablegen: cpp/formatter.rs fmt_identifier no longer delegates to the C formatter")
+    js = open(os.path.join(REPO, "tool/src/js/formatter.rs")).read()
+    jskw = str_array(js, r"const RESERVED: &\[&str\] = &\[", "js RESERVED")
+    jsty = str_array(js, r"const RESERVED_TYPES: &\[&str\] = &\[", "js RESERVED_TYPES")
+    for fn in ("fmt_method_name", "fmt_method_field_name", "fmt_method_param_name"):
+        b = re.sub(r"\s+", " ", fn_body(js, fn))
+        if 'if RESERVED.contains(&&*name) { format!("{name}_")' not in b:
+            raise MachineryError(f"tablegen: js/formatter.rs {fn} no longer escapes through RESERVED")
+    nb = open(os.path.join(REPO, "tool/src/nanobind/formatter.rs")).read()
+    nbody = fn_body(nb, "fmt_identifier")
+    pykw = str_array(nbody, r"LazyLock::new\(\|\| \{\s*\[", "PY_KEYWORDS")
+    if 'if PY_KEYWORDS.contains(name.as_ref()) { format!("{name}_").into() } else { name }' not in re.sub(r"\s+", " ", nbody):
+        raise MachineryError("tablegen: nanobind/formatter.rs fmt_identifier changed shape")
+    return ckw, cpp_extra, jskw, jsty, pykw
+
+
 def main():
     fields, nv_names = support_fields()
     others = other_names()
@@ -198,6 +244,16 @@ def main():
              [f"  | D{v} => {opt(prefix[v])}" for v in variants] + ["  end.", "",
               "(* ... the member anchor (None: `return r`, the link ends at the item's page) *)", "Definition doc_anchor (t : doc_type) : option string :=", "  match t with"] + \
              [f"  | D{v} => {opt(anchor[v])}" for v in variants] + ["  end."]
+    ckw, cpp_extra, jskw, jsty, pykw = keyword_tables()
+    sl = lambda xs: "[" + "; ".join(f'"{x}"' for x in xs) + "]"
+    lines += ["", "(* tool/src/c/formatter.rs fmt_identifier: C_KEYWORDS, and what CPP_KEYWORDS adds to a clone of it *)",
+              f"Definition c_keywords : list string := {sl(ckw)}.",
+              f"Definition cpp_extra_keywords : list string := {sl(cpp_extra)}.",
+              "(* tool/src/js/formatter.rs RESERVED (methods, fields of methods, parameters) and RESERVED_TYPES *)",
+              f"Definition js_reserved : list string := {sl(jskw)}.",
+              f"Definition js_reserved_types : list string := {sl(jsty)}.",
+              "(* tool/src/nanobind/formatter.rs fmt_identifier: PY_KEYWORDS *)",
+              f"Definition py_keywords : list string := {sl(pykw)}."]
     out = "\n".join(lines) + "\n"
     path = os.path.join(COQ, "theories", "gen", "Tables.v")
     os.makedirs(os.path.dirname(path), exist_ok=True)
